@@ -1,7 +1,12 @@
 package props
 
 import (
+	"fmt"
+	"go/types"
+	"strings"
+
 	"utilcheck/flow"
+	"utilcheck/pred"
 )
 
 func init() {
@@ -26,5 +31,247 @@ func runC11(e *Env) {
 		return
 	}
 	e.Flow(func(c *flow.Ctx) { c.RuleDateFieldStores(sp) })
+	ruleC11Wire(e)
+	ruleC11Strict(e)
+	ruleWrap(e, "C11.wrap", "date")
+	e.S.Floor("C11.wire", 8)
+	e.S.Floor("C11.inv", 3)
+	e.S.Floor("C11.strict", 4)
 	e.S.Floor("C11.range", 5)
+}
+
+// canonOracle orders two abstract integers as equal when their canonical root±const forms coincide.
+type canonOracle struct{}
+
+func (canonOracle) Cmp(a, b pred.Val) (int, bool) {
+	ca, ok1 := pred.Canon(a)
+	cb, ok2 := pred.Canon(b)
+	if ok1 && ok2 && ca.Root == cb.Root && ca.C == cb.C {
+		return 0, true
+	}
+	return 0, false
+}
+
+// newSummary models date.New(y, m, d) on in-range components: Date{y−1, m−1, d−1} (time.Date is the identity on
+// real dates, the writer's operand is well-formed by C11.range).
+func newSummary(a *dateAbs) pred.Summary {
+	i, i32, u8 := types.Typ[types.Int], types.Typ[types.Int32], types.Typ[types.Uint8]
+	return func(ev *pred.Evaluator, args []pred.Val) (pred.Val, error) {
+		y, _ := pred.ConvertInt(pred.AddConst(args[0], -1, 64), i, i32)
+		m, _ := pred.ConvertInt(pred.AddConst(args[1], -1, 64), i, u8)
+		d, _ := pred.ConvertInt(pred.AddConst(args[2], -1, 64), i, u8)
+		if y == nil || m == nil || d == nil {
+			return nil, &pred.Undecided{Reason: "New applied to values outside the integer domain"}
+		}
+		st := a.T.Underlying().(*types.Struct)
+		return &pred.StructV{T: st, Named: a.T, Fields: []pred.Val{y, m, d}}, nil
+	}
+}
+
+func ruleC11Wire(e *Env) {
+	const rule = "C11.wire"
+	a := newDateAbs(e)
+	mb := e.Method(rule, "date", "Date", "MarshalBinary")
+	ub := e.Method("C11.inv", "date", "Date", "UnmarshalBinary")
+	if a == nil || mb == nil {
+		return
+	}
+	site := flow.FnName(mb)
+	ev := &pred.Evaluator{Prog: e.P.SSA, Oracle: noOracle{}}
+	out, err := ev.Eval(mb, []pred.Val{a.recv("d")})
+	if err != nil {
+		e.S.Unk(rule, site, "wire", err.Error(), e.Pos(mb))
+		return
+	}
+	t, ok := out.Ret.(pred.Tuple)
+	var wire *pred.SliceV
+	if ok && len(t) == 2 {
+		wire, _ = t[0].(*pred.SliceV)
+	}
+	if wire == nil || t[1].String() != "nil" {
+		e.S.Unk(rule, site, "wire", fmt.Sprintf("result %v is not (byte slice literal, nil)", out.Ret), e.Pos(mb))
+		return
+	}
+	if len(wire.Elems) != 7 {
+		e.S.Bad(rule, site, "length", fmt.Sprintf("%d bytes are written, the format is 7 bytes (version, year×4, month, day)", len(wire.Elems)), e.Pos(mb), "")
+		return
+	}
+	e.S.Ok(rule, site, "length", "7 bytes", e.Pos(mb))
+	ver, _ := tabConstInt(e, "date", "version")
+	if k, ok := intOf(wire.Elems[0].V); ok && k == 1 && ver == 1 {
+		e.S.Ok(rule, site, "byte 0", "version constant 1", e.Pos(mb))
+	} else {
+		e.S.Bad(rule, site, "byte 0", fmt.Sprintf("byte 0 is %v, the format version is 1", wire.Elems[0].V), e.Pos(mb), "")
+	}
+	for k := 1; k <= 4; k++ {
+		construct := fmt.Sprintf("byte %d", k)
+		b, ok := wire.Elems[k].V.(pred.Bits)
+		bad := ""
+		if !ok || len(b.B) != 8 {
+			bad = fmt.Sprintf("%v is not a tracked byte", wire.Elems[k].V)
+		} else {
+			for i, bit := range b.B {
+				wantIdx := 8*(4-k) + i
+				def, isDef := pred.SymDef(bit.Sym)
+				if bit.K != 's' || !isDef || def.X.String() != "d.year" || def.C != 1 || def.W != 32 || bit.Idx != wantIdx {
+					bad = fmt.Sprintf("bit %d is %s; big-endian signed 32-bit year requires bit %d of (year+1)", i, bitStr(bit), wantIdx)
+				}
+			}
+		}
+		if bad != "" {
+			e.S.Bad(rule, site, construct, bad, e.Pos(mb), fmt.Sprint(wire.Elems[k].V))
+		} else {
+			e.S.Ok(rule, site, construct, fmt.Sprintf("bits %d..%d of (year+1)", 8*(4-k)+7, 8*(4-k)), e.Pos(mb))
+		}
+	}
+	for k, name := range map[int]string{5: "month", 6: "day"} {
+		construct := fmt.Sprintf("byte %d", k)
+		c, ok := pred.Canon(wire.Elems[k].V)
+		if ok && c.Root == "d."+name && c.C == 1 {
+			e.S.Ok(rule, site, construct, name+"+1", e.Pos(mb))
+		} else {
+			e.S.Bad(rule, site, construct, fmt.Sprintf("byte %d is %v, the format stores %s+1 (one-based)", k, canonVal(wire.Elems[k].V), name), e.Pos(mb), "")
+		}
+	}
+	// C11.inv: the reader applied to the writer's abstract output
+	if ub == nil {
+		return
+	}
+	usite := flow.FnName(ub)
+	recv := &pred.Cell{V: a.recv("old"), Name: "recv"}
+	newFn := e.P.Func("date", "New")
+	sums := map[string]pred.Summary{}
+	if newFn != nil {
+		sums[newFn.String()] = newSummary(a)
+	}
+	ev2 := &pred.Evaluator{Prog: e.P.SSA, Oracle: canonOracle{}, Summaries: sums}
+	out2, err := ev2.Eval(ub, []pred.Val{pred.Ptr{Cell: recv}, wire})
+	if err != nil {
+		e.S.Unk("C11.inv", usite, "composition", "UnmarshalBinary∘MarshalBinary not evaluable symbolically: "+err.Error(), e.Pos(ub))
+		return
+	}
+	if out2.Ret.String() != "nil" {
+		e.S.Bad("C11.inv", usite, "composition", fmt.Sprintf("unmarshalling the marshalled bytes returns the error %v", out2.Ret), e.Pos(ub), "")
+		return
+	}
+	sv, ok := recv.V.(*pred.StructV)
+	if !ok || len(sv.Fields) != 3 {
+		e.S.Unk("C11.inv", usite, "composition", fmt.Sprintf("receiver is %v", recv.V), e.Pos(ub))
+		return
+	}
+	for i, name := range []string{"year", "month", "day"} {
+		c, ok := pred.Canon(sv.Fields[i])
+		if ok && c.Root == "d."+name && c.C == 0 {
+			e.S.Ok("C11.inv", usite, name, fmt.Sprintf("Unmarshal(Marshal(d)).%s = d.%s (identity modulo 2^%d)", name, name, map[int]int{0: 32, 1: 8, 2: 8}[i]), e.Pos(ub))
+		} else {
+			e.S.Bad("C11.inv", usite, name, fmt.Sprintf("after the round trip %s = %v, not d.%s", name, canonVal(sv.Fields[i]), name), e.Pos(ub), "")
+		}
+	}
+}
+
+func ruleC11Strict(e *Env) {
+	const rule = "C11.strict"
+	ub := e.Method(rule, "date", "Date", "UnmarshalBinary")
+	a := newDateAbs(e)
+	if ub == nil || a == nil {
+		return
+	}
+	site := flow.FnName(ub)
+	ver, _ := tabConstInt(e, "date", "version")
+	keyOf := func(x, y pred.Val) (string, bool) {
+		c, ok := y.(pred.Const)
+		if !ok || c.V == nil {
+			return "", false
+		}
+		if x.String() == "len(data)" {
+			return "len==" + c.V.ExactString(), true
+		}
+		if el, ok := x.(pred.Elem); ok && el.Base.String() == "data" {
+			if ic, ok := el.Index.(pred.Const); ok && ic.V != nil {
+				return "data[" + ic.V.ExactString() + "]==" + c.V.ExactString(), true
+			}
+		}
+		return "", false
+	}
+	prune := func(assign map[string]int) bool {
+		n := 0
+		for k, v := range assign {
+			if strings.HasPrefix(k, "len==") && v == 0 {
+				n++
+			}
+		}
+		return n <= 1
+	}
+	var recv *pred.Cell
+	mk := func() []pred.Val {
+		recv = &pred.Cell{V: pred.Sym{Name: "old"}, Name: "recv"}
+		return []pred.Val{pred.Ptr{Cell: recv}, pred.Sym{Name: "data"}}
+	}
+	treeSnapshot = func() string { return fmt.Sprint(recv.V) }
+	leaves, err := extractTree(e.P.SSA, ub, mk, map[string]pred.Summary{}, nil, keyOf, binDomain, prune)
+	treeSnapshot = nil
+	if err != nil {
+		e.S.Unk(rule, site, "table", err.Error(), e.Pos(ub))
+		return
+	}
+	verKey := fmt.Sprintf("data[0]==%d", ver)
+	for _, lf := range leaves {
+		construct := lf.String()
+		get := func(k string) int { // 1 true, 0 false, 2 unknown
+			v, ok := lf.Assign[k]
+			if !ok {
+				return 2
+			}
+			if v == 0 {
+				return 1
+			}
+			return 0
+		}
+		empty, seven, vok := get("len==0"), get("len==7"), get(verKey)
+		foreign := ""
+		for k := range lf.Assign {
+			if strings.HasPrefix(k, "data[0]==") && k != verKey || strings.HasPrefix(k, "len==") && k != "len==0" && k != "len==7" {
+				foreign = k
+			}
+		}
+		if foreign != "" {
+			e.S.Bad(rule, site, construct, "the reader tests "+foreign+"; the format is version "+fmt.Sprint(ver)+" (as written by MarshalBinary) and 7 bytes long", e.Pos(ub), "")
+			continue
+		}
+		want := "?"
+		switch {
+		case empty == 1:
+			want = "ErrInvalidLength"
+		case empty == 0 && vok == 0:
+			want = "ErrUnsupportedVersion"
+		case empty == 0 && vok == 1 && seven == 0:
+			want = "ErrInvalidLength"
+		case empty == 0 && vok == 1 && seven == 1:
+			want = "decode"
+		}
+		got := "decode"
+		if lf.Err == nil {
+			r := lf.Out.Ret.String()
+			switch {
+			case r == "nil":
+				got = "decode"
+			case strings.Contains(r, "*date.ErrInvalidLength"):
+				got = "ErrInvalidLength"
+			case strings.Contains(r, "*date.ErrUnsupportedVersion"):
+				got = "ErrUnsupportedVersion"
+			default:
+				got = "error:" + r
+			}
+		}
+		switch {
+		case want == "?":
+			e.S.Bad(rule, site, construct, "the reader decides ("+got+") without having tested emptiness, version and length", e.Pos(ub), "")
+		case got != want:
+			e.S.Bad(rule, site, construct, "outcome "+got+", documented "+want, e.Pos(ub), "")
+		case want != "decode" && lf.final != "old":
+			e.S.Bad(rule, site, construct, "the receiver is modified ("+lf.final+") although an error is returned", e.Pos(ub), "")
+		default:
+			e.S.Ok(rule, site, construct, "outcome "+want, e.Pos(ub))
+		}
+	}
 }
